@@ -138,6 +138,11 @@ template <class TArchive, class T> std::string opSave(const Req& r) {
 	auto v = std::make_unique<T>();
 	vh::Rng rng(r.c.getu("seed", 1));
 	mz::gen(rng, *v, r.ctx);
+	if constexpr (mz::is_tp<T>::value) { if (r.c.has("count")) *v = T(typename T::duration(static_cast<typename T::duration::rep>(r.c.geti("count")))); }
+	if constexpr (mz::is_dur<T>::value) { if (r.c.has("count")) *v = T(static_cast<typename T::rep>(r.c.geti("count"))); }
+	if constexpr (mz::is_std_string<T>::value) { if (r.c.has("strlen")) { v->assign(size_t(r.c.getu("strlen")), typename T::value_type('a')); } }
+	if constexpr (std::is_same_v<T, std::vector<int32_t>> || std::is_same_v<T, std::vector<uint8_t>> || std::is_same_v<T, std::vector<char>>) { if (r.c.has("seqlen")) v->assign(size_t(r.c.getu("seqlen")), typename T::value_type(7)); }
+	if constexpr (std::is_same_v<T, std::map<int64_t, std::string>>) { if (r.c.has("seqlen")) { v->clear(); for (uint64_t i = 0; i < r.c.getu("seqlen"); ++i) (*v)[int64_t(i)] = "v"; } }
 	std::string bytes;
 	Outcome o = saveTo<TArchive>(*v, bytes, r);
 	vh::JObj j; j.str("id", r.c.get("id")); o.toJson(j);
@@ -187,14 +192,40 @@ template <class TArchive, class T> std::string opRoundTrip(const Req& r) {
 	return j.done();
 }
 
+// saves every integer of a list / range as its own document and returns the concatenation (MessagePack is self-delimiting)
+template <class TArchive, class T> std::string opSweep(const Req& r) {
+	if constexpr (std::is_integral_v<T> && !std::is_same_v<T, bool>) {
+		std::string all;
+		unsigned long long n = 0;
+		bool stream = r.c.get("sink", "mem") != "mem";
+		auto one = [&](T v) {
+			std::string bytes;
+			if (stream) { std::ostringstream os; SaveObject<TArchive>(v, os, r.opt); bytes = os.str(); } else SaveObject<TArchive>(v, bytes, r.opt);
+			all += bytes; ++n;
+		};
+		if (r.c.has("vals")) {
+			std::string vs = r.c.get("vals"); size_t p = 0;
+			while (p < vs.size()) { size_t e = vs.find(',', p); if (e == std::string::npos) e = vs.size(); std::string tok = vs.substr(p, e - p);
+				if constexpr (std::is_signed_v<T>) one(static_cast<T>(strtoll(tok.c_str(), nullptr, 10))); else one(static_cast<T>(strtoull(tok.c_str(), nullptr, 10))); p = e + 1; }
+		} else {
+			long long lo = r.c.geti("lo"), hi = r.c.geti("hi");
+			for (long long v = lo; v <= hi; ++v) one(static_cast<T>(v));
+		}
+		return vh::JObj().str("id", r.c.get("id")).unum("n", n).str("bytes", vh::hex(all)).done();
+	} else {
+		return vh::JObj().str("id", r.c.get("id")).str("error", "sweep needs an integral root type").done();
+	}
+}
+
 template <class T> std::string opShape(const Req& r) { return vh::JObj().str("id", r.c.get("id")).raw("shape", mz::shape<T>(r.ctx)).done(); }
 
 using OpFn = std::string (*)(const Req&);
-struct TypeEntry { OpFn save = nullptr, load = nullptr, roundtrip = nullptr, shape = nullptr; };
+struct TypeEntry { OpFn save = nullptr, load = nullptr, roundtrip = nullptr, shape = nullptr, sweep = nullptr; };
 using Registry = std::map<std::string, TypeEntry>;   // key = "<arch>/<type>"
 
 template <class TArchive, class T> void reg(Registry& r, const char* arch, const char* type) {
 	TypeEntry e; e.save = &opSave<TArchive, T>; e.load = &opLoad<TArchive, T>; e.roundtrip = &opRoundTrip<TArchive, T>; e.shape = &opShape<T>;
+	if constexpr (TArchive::archive_type == ArchiveType::MsgPack) e.sweep = &opSweep<TArchive, T>;
 	r[std::string(arch) + "/" + type] = e;
 }
 
